@@ -1013,7 +1013,7 @@ def run(repo, rep):
     # ---------------------------------------------------------------- S10: encoding is repeatable
     from .c10 import limit_setter_problems
     sp_, sn_ = limit_setter_problems(repo)
-    rep.rule('C06.S11', 'the width the fragments are cut to is the limit that was set (same analysis as C10.X9): a setter of '
+    rep.rule('C06.S11', 'the width the fragments are cut to is the limit that was set (same analysis as C10.X10): a setter of '
              '``max_pdu_length`` stores 0 and every value from 7 on unchanged', 1)
     rep.check(not sp_, 'C06.S11', 'asceprovider:Association.max_pdu_length:setter', repo.module('asceprovider').relpath,
               '%d setter(s) of max_pdu_length, each stores the legal values as given' % sn_, '; '.join(sp_))
